@@ -282,7 +282,19 @@ def _canon_block(stmts, mirror=False):
 
 
 def r63(ctx, rep):
-    fn = ctx.project.need_fn('petl.transform.joins:iterjoin')
+    fn0 = ctx.project.need_fn('petl.transform.joins:iterjoin')
+    # the symmetry is a property of the merge skeleton as written: row assembly helpers (joinrows(l, None) /
+    # joinrows(None, r), or one closure per case) stay calls here; what they build is compared under R6.4
+    class _AsWritten(object):
+        pass
+    fn = _AsWritten()
+    fn.__dict__.update(fn0.__dict__)
+    if getattr(fn0, 'orig_body', None) is not None:
+        import copy as _copy
+        nd = _copy.copy(fn0.node)
+        nd.body = fn0.orig_body
+        fn.node = nd
+    fn.fq = fn0.fq
     _Mirror.swap = _swap_map(fn.node) or SWAP
     # the merge loop: while True: if lkval < rkval: A elif lkval > rkval: B else: C
     loops = [n for n in own_nodes(fn.node) if isinstance(n, ast.While)]
